@@ -125,4 +125,27 @@ theorem Finding_cog18_domain :
   simp only [epv_leaf]
   norm_num
 
+/-! ### The returned (tree-level) fields
+
+The traced decision tree has a single leaf and no path condition: the returned fields *are* those
+of leaf 0 (definitionally), so the leaf theorems are statements about what the solver returns. -/
+
+theorem cog18_tree : Cog18.density = Cog18.L0.density ∧ Cog18.velocity = Cog18.L0.velocity
+    ∧ Cog18.temperature = Cog18.L0.temperature ∧ ∀ p r t, Cog18.outcome p r t = .ok := ⟨rfl, rfl, rfl, fun _ _ _ => rfl⟩
+
+theorem cog18_mass_tree (p : Cog18.P) (r t : ℝ) (hr : 0 < r) (hx : 0 < p.tau ^ 2 - t ^ 2) (hα : p.alpha ≠ 0) :
+    massRes (Cog18.density p) (Cog18.velocity p) (p.geometry - 1) r t = 0 :=
+  cog18_mass p r t hr hx hα
+
+theorem cog18_momentum_tree (p : Cog18.P) (r t : ℝ) (hwd : Cog18.L0.WellDefined p r t) :
+    momResT (Cog18.density p) (Cog18.velocity p) (Cog18.temperature p) p.Gamma r t = 0 :=
+  cog18_momentum p r t hwd
+
+theorem cog18_energy_tree (p : Cog18.P) (c a lam0 : ℝ) (r t : ℝ) (hwd : Cog18.L0.WellDefined p r t)
+    (hρ0 : 0 < p.rho0)
+    (hT0 : 0 < p.alpha * p.tau ^ 2 / p.Gamma / (2 * p.alpha - 2 * p.beta - (p.geometry - 1) - 7)) :
+    energyResT (Cog18.density p) (Cog18.velocity p) (Cog18.temperature p)
+      p.Gamma (((p.geometry - 1) + 3) / ((p.geometry - 1) + 1)) (p.geometry - 1) c a lam0 p.alpha p.beta r t = 0 :=
+  cog18_energy p c a lam0 r t hwd hρ0 hT0
+
 end EPV.C01
